@@ -103,7 +103,7 @@ CHECKS = {
   "level": "model_checking",
   "technique": "TLA+ permission gate over the dependency closure + argument-list parser (Cosmetic!Injection/ParseArgs); TLC-enumerated rule sets x permissions x resource stores replayed on the real engine; random argument lists recorded from the real engine validated by TLC (Decode(Encode(arg)) = arg)",
   "text": "TLC enumerates all sets of <=2 (quick) / <=3 +js rules over 22 argument spellings x list permissions {0,1,2,3} against a store with permissioned scriptlets, permissioned transitive dependencies (incl. a dependency cycle and a missing dependency), aliases, template-style and non-injectable resources, identical and blanket exceptions; each page is queried 6 times because injection order varies per call. M3: 2.5k (quick) / 20k random argument lists (all C0 controls, quotes, backslashes, U+2028/9, $-sequences, non-ASCII, </script>) in random quoting styles go through a real engine; the emitted literals are parsed back and Trace_C18 checks them against the spec's ParseArgs.",
-  "note": TB + "serde_json stands in for a JavaScript string-literal parser (valid for ES2019). Escaped quote characters inside a quoted argument are not generated (their meaning is not pinned). The 256x256 mask table is covered through 4 permission values x resource requirements here and exhaustively by the repository's own subset test; redirect refusal of permissioned resources is covered in C13.",
+  "note": TB + "serde_json stands in for a JavaScript string-literal parser (valid for ES2019). Escaped quote characters inside a quoted argument are not generated (their meaning is not pinned). The 256x256 mask table is enumerated exhaustively by TLC (MC_Perm, requirement subset-of grant) and replayed at three levels (PermissionMask::is_injectable_by, ResourceStorage::get_scriptlet_resources incl. a dependency with its own requirement for 8 dependency masks, Engine with a rule list carrying the grant); redirect refusal of permissioned resources is covered in C13.",
  },
 
  "C11": {
